@@ -57,6 +57,21 @@ func opMaskWrite(sc *Schema, s *Scenario, r *Result) error {
 			x["mask_err"] = err.Error()
 			return
 		}
+		// history: the same object was written before under other masks (x.pre: list of path lists); what is
+		// written now must depend on the current mask only
+		if pre, ok := s.X["pre"].([]interface{}); ok {
+			if m, ok := obj.(masked); ok {
+				for _, ps := range pre {
+					pm, err := mkMask(obj, map[string]interface{}{"mode": "white", "paths": ps})
+					if err != nil || pm == nil {
+						continue
+					}
+					m.Set_FieldMask(pm)
+					obj.Write(thrift.NewTBinaryProtocol(thrift.NewTMemoryBuffer(), true, true))
+				}
+				m.Set_FieldMask(nil)
+			}
+		}
 		if fm != nil {
 			obj.(masked).Set_FieldMask(fm)
 		}
